@@ -351,6 +351,44 @@ def _fread_sites(prog):
 def _short_read_branch(fn, call, var, want):
     """(block, short successor, full successor) of the branch comparing the fread result with the length."""
     cfg = fn.cfg
+
+    def is_res0(e):
+        e = strip_all(e)
+        return e is call or (var is not None and e is not None and e.get("k") == "DeclRefExpr" and e.get("d") == var)
+    # a bool that holds the comparison:  short_read = got < want;  ...  while (... && !short_read)
+    flags = {}
+    for n in fn.walk():
+        tgt = rhs = None
+        if n.get("k") == "BinaryOperator" and n.get("op") == "=":
+            tgt, rhs = strip_all(n["c"][0]), strip_all(n["c"][1])
+        elif n.get("k") == "VarDecl" and n.get("c"):
+            tgt, rhs = {"k": "DeclRefExpr", "d": n["d"]}, strip_all(n["c"][0])
+        if tgt is None or rhs is None or tgt.get("k") != "DeclRefExpr" or rhs.get("k") != "BinaryOperator":
+            continue
+        l, rel, rr = rhs["c"][0], rhs.get("op"), rhs["c"][1]
+        if is_res0(rr) and rel in flow.SWAP:
+            l, rel, rr = rr, flow.SWAP[rel], l
+        if is_res0(l) and rel in ("<", "!=") and same_expr(rr, want):
+            flags[tgt["d"]] = True          # true means short
+        if is_res0(l) and rel in (">=", "==") and same_expr(rr, want):
+            flags[tgt["d"]] = False         # true means full
+    for fd, short_when_true in flags.items():
+        if sum(1 for x in fn.walk() if x.get("k") != "VarDecl" and x.get("k") != "DeclStmt"
+               for d_, _ in flow.written_decls(x) if d_ == fd) > 1:
+            continue
+        for bid in cfg.reachable():
+            b = cfg.blocks[bid]
+            if b.get("cond") is None or len(cfg.succ[bid]) != 2:
+                continue
+            cond = fn.nodes.get(b["cond"])
+            cs = strip_all(cond)
+            if cs is not None and cs.get("k") == "BinaryOperator" and cs.get("op") in ("&&", "||"):
+                cond = cs["c"][1]       # clang ends the block of the right operand with the whole && / ||: what
+                                        # decides this block's two exits is the right operand
+            for outcome, si in ((True, 0), (False, 1)):
+                for f in atomise(cond, outcome):
+                    if f[0] == "T" and (strip_all(f[1]) or {}).get("d") == fd and f[2] is short_when_true:
+                        return bid, cfg.succ[bid][si], cfg.succ[bid][1 - si]
     for bid in cfg.reachable():
         b = cfg.blocks[bid]
         if b.get("cond") is None or len(cfg.succ[bid]) != 2:
